@@ -151,6 +151,8 @@ func runC07(c *Ctx) {
 	c07Reject(c)
 	c07Reask(c)
 	c07Resp(c)
+	c07IndexSpace(c)
+	c07VerdictFromMatcher(c)
 	c.R.Floor("PARSENUM", parseNumSites(c, "PARSENUM", []string{"component/dns"}, func(f string) bool { return f == "function_parser.go" }), 1)
 }
 
